@@ -202,4 +202,38 @@ example : padIds [[7, 8, 9], [], [5]] 0 = ([[7, 8, 9], [0, 0, 0], [5, 0, 0]], [3
 example : paddingMask [2, 0, 3] = [[true, true, false], [false, false, false], [true, true, true]] := by decide
 example : utf8 0x20AC = [0xE2, 0x82, 0xAC] := by decide
 
+/-! ### the tensorised batch of every task kind -/
+
+/-- the id matrix and the lengths are `pad_ids` of the items' ids with the INPUT side's pad id (so
+`padIds_spec` applies: each row is the item's ids followed only by that padding; true lengths) -/
+theorem tensorize_ids (k pad tpad : Nat) (rows trows lrows : List (List Nat)) :
+    ((tensorize k pad tpad rows trows lrows).ids, (tensorize k pad tpad rows trows lrows).lens) = padIds rows pad := by
+  simp [tensorize]
+
+/-- conditional generation: the target matrix is `pad_ids` of the target ids with the TARGET side's pad id -/
+theorem tensorize_target (pad tpad : Nat) (rows trows lrows : List (List Nat)) :
+    (tensorize 3 pad tpad rows trows lrows).target = some (padIds trows tpad) := by
+  simp [tensorize]
+
+theorem tensorize_no_target (k pad tpad : Nat) (rows trows lrows : List (List Nat)) (hk : k ≠ 3) :
+    (tensorize k pad tpad rows trows lrows).target = none := by
+  simp [tensorize, hk]
+
+/-- sequence tasks: the label matrix is `pad_ids` of the label rows with the ignore label (-1, `0` on the wire) -/
+theorem tensorize_labels (k pad tpad : Nat) (rows trows lrows : List (List Nat)) (hk : k ≠ 0) :
+    (tensorize k pad tpad rows trows lrows).labels = (padIds lrows 0).1 := by
+  simp [tensorize, hk]
+
+/-- hence every target row is the item's target ids followed only by the target padding -/
+theorem tensorize_target_rows (pad tpad : Nat) (rows trows lrows : List (List Nat)) (i : Nat) (hi : i < trows.length) :
+    ∃ tm tl m, (tensorize 3 pad tpad rows trows lrows).target = some (tm, tl) ∧ tl = trows.map List.length ∧
+      (∀ r ∈ trows, r.length ≤ m) ∧
+      tm.getD i [] = trows.getD i [] ++ List.replicate (m - (trows.getD i []).length) tpad := by
+  obtain ⟨h1, _, h3⟩ := padIds_spec trows tpad
+  obtain ⟨m, hm, hrow, _⟩ := h3 i hi
+  exact ⟨(padIds trows tpad).1, (padIds trows tpad).2, m, by rw [tensorize_target], h1, hm, hrow⟩
+
+example : (tensorize 3 9 7 [[1, 2], [3]] [[4], [5, 6, 6]] [[1], [1, 2, 2]]).target = some ([[4, 7, 7], [5, 6, 6]], [1, 3]) := by decide
+example : (tensorize 3 9 7 [[1, 2], [3]] [[4], [5, 6, 6]] [[1], [1, 2, 2]]).ids = [[1, 2], [3, 9]] := by decide
+
 end Tu.C17
